@@ -132,6 +132,10 @@ where
                 .await
                 .context("Failed to write to temp file")?;
         }
+        temp_file
+            .flush()
+            .await
+            .context("Failed to flush temp file")?;
     }
     Ok((
         source_hasher.finalize().to_vec(),
